@@ -2,8 +2,10 @@ package inner
 
 import (
 	"fmt"
+	"net/http/httptest"
 	"strconv"
 	"strings"
+	"sync"
 
 	sebufhttp "github.com/SebastienMelki/sebuf/http"
 	"google.golang.org/protobuf/proto"
@@ -17,6 +19,20 @@ import (
 )
 
 func init() { checkBuilders["c20"] = buildC20 }
+
+func codeOf(r *httptest.ResponseRecorder) int {
+	if r == nil {
+		return 0
+	}
+	return r.Code
+}
+
+func bodyOf(r *httptest.ResponseRecorder) string {
+	if r == nil {
+		return ""
+	}
+	return short(r.Body.String(), 200)
+}
 
 func fieldExamples(fd protoreflect.FieldDescriptor) []string {
 	o, _ := fd.Options().(*descriptorpb.FieldOptions)
@@ -180,6 +196,35 @@ func buildC20(e *engine, p *rt.Package) {
 					res.sample(map[string]any{"request": desc, "status": rec.Code, "body": short(rec.Body.String(), 300)})
 					if rec.Code != 200 {
 						t.Fatalf("the mock answered a valid request with %d: %s (%s)", rec.Code, short(rec.Body.String(), 300), desc)
+					}
+					// the mock is a server implementation: the same valid request issued by several callers at once is
+					// answered like one issued alone (the binary is built with the race detector)
+					if rapid.IntRange(0, 9).Draw(t, "burst") == 0 {
+						res.class("concurrent_burst")
+						var wg sync.WaitGroup
+						var mu sync.Mutex
+						bad := ""
+						for g := 0; g < 8; g++ {
+							wg.Add(1)
+							go func() {
+								defer wg.Done()
+								for i := 0; i < 25; i++ {
+									r2, p2 := srv.serve(info.Verb, target, hdr.Clone(), body)
+									if p2 != "" || r2.Code != 200 {
+										mu.Lock()
+										if bad == "" {
+											bad = fmt.Sprintf("panic=%q status=%d body=%s", p2, codeOf(r2), bodyOf(r2))
+										}
+										mu.Unlock()
+									}
+								}
+							}()
+						}
+						wg.Wait()
+						srv.taken()
+						if bad != "" {
+							t.Fatalf("under 8 concurrent callers the mock no longer answers the request it answers alone: %s (%s)", bad, desc)
+						}
 					}
 					got := m.NewResp()
 					var derr error
